@@ -600,9 +600,8 @@ func (in *interp) eval(e bn.Expr, env *Env) Value {
 			if o.K == KOpaque {
 				in.unspecified("property store on an undetermined value")
 			}
-			if !Pure(e.V) {
-				in.unspecified("order of a failing property store against its value's effects")
-			}
+			// the assigned value is evaluated before the store is attempted (C14)
+			in.eval(e.V, env)
 			in.fail(ENotObject, e.Line, "")
 		}
 		v := in.eval(e.V, env)
